@@ -135,6 +135,9 @@ func (h *gHub) wait(deadline time.Duration, pred func() (done bool, err error)) 
 		select {
 		case <-ch:
 		case <-t.C:
+			if deadline >= time.Second {
+				gDeadlineHits.Add(1)
+			}
 			h.mu.Lock()
 			_, err := pred()
 			b := h.blockedLocked()
